@@ -89,7 +89,7 @@ DateTimes == { Case("DateTime", DtText(d, ts, hm, sec, off), DtText(d, ts, hm, s
                  d \in DtDates, ts \in {"T", "t"}, hm \in DtTimes, sec \in DtSecs, off \in Offsets }
 \* ------------------------------------------------------------- durations
 \* components: <<Y, M, D, H, Mi, Sint, Sfrac>> ; presence: subset of 1..6 ; sign
-DurVals == { <<1, 2, 3, 4, 5, 6, "">>, <<0, 12, 31, 23, 59, 59, "999">>, <<10, 0, 0, 100, 0, 0, "5">>, <<2, 18, 400, 0, 90, 3600, "000001">> }
+DurVals == { <<1, 2, 3, 4, 5, 6, "">>, <<0, 12, 31, 23, 59, 59, "999">>, <<10, 0, 0, 100, 0, 0, "5">>, <<2, 18, 400, 0, 90, 3600, "000001">>, <<0, 1, 1, 1, 1, 1, "1234567">> }
 Presence == (SUBSET (1..6)) \ {{}}
 DurNum(n) == NatCps(n)
 DurBody(v, p) ==
@@ -108,7 +108,7 @@ Durations == { LET body == S(s) \o DurBody(v, p)
                          IF 6 \in p THEN S(v[7]) ELSE <<>> >>) :
                s \in Signs, v \in DurVals, p \in Presence, lc \in BOOLEAN }
 \* ------------------------------------------------------------- identifiers
-IdAtoms == <<"x", "1", "_", ".", "null", "true", "false", "any", "all", "not", "in", "eq", "and", "or", "Q">>
+IdAtoms == <<"x", "X", "1", "_", ".", "null", "true", "false", "any", "all", "not", "in", "eq", "and", "or", "Q">>
 RECURSIVE AtomSeqs(_)
 AtomSeqs(k) == IF k = 0 THEN {<<>>} ELSE LET prev == AtomSeqs(k - 1) IN
                prev \cup { Append(q, i) : q \in {r \in prev : Len(r) = k - 1}, i \in 1..Len(IdAtoms) }
